@@ -119,7 +119,7 @@ def r05_1(run, model):
                 args = c["args"]
                 subj = S.idents(args[0]) if args else set()
                 envarg = None
-                for a in args[1:3]:
+                for a in args[1:]:   # the environment is recognised by what it is (the parameter or a child scope), not by its position
                     ids = S.idents(a)
                     if env_param in ids:
                         envarg = env_param
